@@ -46,3 +46,6 @@ CLAIMS["C04"] = ("exploration",
 CLAIMS["C05"] = ("exploration",
     "Hypothesis-generated sorted group-key sequences (1-3 page_by levels and/or 1-2 subline_by columns, inner values reused under different outer values, divider runs, runs sized relative to the page capacity) plus an exhaustive sweep over all compositions of 8 rows x capacity 2..6; reference walk over the parsed page (presence, value, outer-before-inner order, no stranded heading, heading counts, dividers silent and lossless, one subline heading per page naming its group). " + _EXPL,
     _READER, "property-based testing: capacity-relative group-run generator + exhaustive compositions, reference walk over independently parsed pages")
+CLAIMS["C13"] = ("exploration",
+    "Exhaustive key sequences over a 7-symbol alphabet incl. null, '', '|' and '__NULL__' tokens (1 level up to length 5/6, 2 levels up to length 3/4) at page capacities 2, 3, unbounded, plus Hypothesis-generated 1-3 level sequences up to 60 rows combined with page_by / subline_by and deliberately non-contiguous orders; reference model with null as a value for blanking, page-context restoration, forward-fill reconstruction and the ValueError contract. " + _EXPL,
+    _READER, "property-based testing: exhaustive short key sequences + Hypothesis, reference suppression/rejection model")
